@@ -22,7 +22,7 @@ RULE = ("class forests: sibling classes, nesting to depth 3 (thorough 5), any or
         "distinct by SHA-1 of the case")
 ASSUMPTIONS = ["include_undocumented_* at defaults", "declarations are directly followed by their undocumented implementing "
                "definition", "'[, ...]' rendering of variadic members is not constrained"]
-BUDGET = {"quick": {"shards": 4, "examples": 250}, "thorough": {"shards": 16, "examples": 3000}}
+BUDGET = {"quick": {"shards": 8, "examples": 200}, "thorough": {"shards": 16, "examples": 3000}}
 
 PATTERNS = ["", "", "", "^_", "_$", "^[a-z]{1,3}_", "[0-9]+", "(?i)^arg_", "^v", "_name$"]
 
